@@ -23,7 +23,7 @@ def run(c):
             if len(pick) >= 110:
                 break
         cfgs = pick
-    scen = [dict(g, sc=i, after_error=(g["sched"] == "after_error"), overlapped=(g["sched"] == "overlapped"), tz=("", "+09:00", "-03:30")[i % 3]) for i, g in enumerate(cfgs)]
+    scen = [dict(g, sc=i, after_error=(g["sched"] == "after_error"), overlapped=(g["sched"] == "overlapped"), busy=(g["sched"] == "busy"), tz=("", "+09:00", "-03:30")[i % 3]) for i, g in enumerate(cfgs)]
     env = dict(os.environ, VERIF_FIXTURES=os.path.join(vf.VERIF, "fixtures"))
     res, deaths = c.run_worker("p7sign", scen, env=env, timeout=1800)
     events, owner = [], []
